@@ -85,6 +85,23 @@ theorem abs_agrees (x : Rat) : Generated.Machines.Decimal.abs x = Position.abs x
   unfold Generated.Machines.Decimal.abs Position.abs
   grind
 
+/-- `Ord::cmp` on `Decimal` (the prelude's `Decimal.cmp`, which `match a.cmp(&b) { Less / Equal / Greater }` is translated
+through) is the trichotomy of `<`: each constructor characterises one of `a < b`, `a = b`, `b < a`. This is what makes
+the `cmp` spelling of the three-way decision of `update_from_trade` and its spelling with the guards `>`, `==`, `<` the
+same decision table. -/
+theorem decimal_cmp_spec (a b : Rat) :
+    (Generated.Machines.Decimal.cmp a b = .Less ↔ a < b)
+    ∧ (Generated.Machines.Decimal.cmp a b = .Equal ↔ a = b)
+    ∧ (Generated.Machines.Decimal.cmp a b = .Greater ↔ b < a) := by
+  unfold Generated.Machines.Decimal.cmp
+  by_cases h1 : a < b
+  · simp only [h1, ↓reduceIte, reduceCtorEq, false_iff]
+    exact ⟨trivial, by grind, by grind⟩
+  · by_cases h2 : a = b
+    · subst h2; simp [h1]
+    · simp only [h1, h2, ↓reduceIte, reduceCtorEq, true_iff, true_and]
+      grind
+
 /-! ## Shape-independent proofs
 
 Every proof below takes the records apart (`rcases`: case analysis on the DATA — the two sides, and for
